@@ -11,7 +11,7 @@ RULE = ("three kinds of case: (a) matched DST grids r_j=j dr, Q_k=k pi/(N dr) wi
         "at both ends: F->G->F, G->F->G, S->g->S, g->S->g and basis-vector partners; (b) closed-form family G(r)=sum A r exp(-a r^2) "
         "<-> F(Q)=sum A sqrt(pi) Q/(4 a^1.5) exp(-Q^2/4a) on fine grids (step<=0.05/sqrt(a), range>=12/sqrt(a)), both directions, "
         "compared with the closed form; non-trivial = N>=3 or at least one family member with A != 0")
-DIST = ["kind", "with_unc"]
+DIST = ["kind", "with_unc", "intgrid"]
 SHRINK = None
 
 
@@ -30,10 +30,16 @@ def _gen(rng, i, tier):
         if rng.random() < 0.03:
             N = int(rng.integers(2900, 4200))   # (N+1)^2 beyond 2^23: block-wise / chunked evaluations show their seams
         dr = float(10 ** rng.uniform(-2, 0))
+        intgrid = None
+        if rng.random() < 0.15:
+            # matched grids on which one of the two abscissa vectors is a run of whole numbers, stored with an integer dtype:
+            # dr = 1 (r_j = j) or dr = pi/N (Q_k = k)
+            intgrid = str(rng.choice(["r", "q"]))
+            dr = 1.0 if intgrid == "r" else float(np.pi / N)
         f, _ = data(rng, np.arange(N + 1, dtype=float), kind=str(rng.choice(["noise", "smooth", "spike", "big"])))
         f[0] = f[-1] = 0.0
         m = int(rng.integers(1, N)) if N > 1 else 1
-        return dict(kind="matched", N=N, dr=dr, f=tolist(f), m=m, kw=material(rng))
+        return dict(kind="matched", N=N, dr=dr, f=tolist(f), m=m, kw=material(rng), intgrid=intgrid)
     k = int(rng.integers(1, 4))
     a = [float(10 ** rng.uniform(-1, 1)) for _ in range(k)]
     A = [float(rng.normal() * 3) for _ in range(k)]
@@ -74,6 +80,10 @@ def evaluate(case):
         f = np.asarray(case["f"], dtype=float)
         r = np.arange(N + 1) * dr
         q = np.arange(N + 1) * (np.pi / (N * dr))
+        if case.get("intgrid") == "r":
+            r = np.arange(N + 1)            # the same numbers, integer dtype
+        elif case.get("intgrid") == "q":
+            q = np.arange(N + 1)
         sc = max(float(np.abs(f).max()), 1e-300)
         _, G, _ = tr.F_to_G(q, f, r)
         _, f2, _ = tr.G_to_F(r, G, q)
